@@ -661,7 +661,7 @@ def run(ctx):
         for nodes, edges in fn.all_small_hypergraphs(4, 3):
             count += 1
             small += requests_for(nodes, edges, full=True)
-            if len(edges) >= 2 and count % 3 == 0:
+            if len(edges) >= 1:
                 for vn, ve in variants(nodes, edges):
                     small += requests_for(vn, ve, full=False, rng=rng)
         ctx.stats["small_scope_hypergraphs"] = count
@@ -670,7 +670,7 @@ def run(ctx):
         ctx.exhaustive = True
         ctx.extra["exhaustive_space"] = ("correspondence and predicate on every hypergraph with nodes {0,1,2,3} and <= 3 distinct "
                                          f"non-empty edges ({count} hypergraphs), every node as source / component query, every s, weights, "
-                                         "subset_types; plus mixed-label and multi-edge variants of every third one")
+                                         "subset_types; plus a mixed-label (reversed order) and a multi-edge variant of each")
 
     def search():
         extra = []
